@@ -70,7 +70,7 @@ func checkC02(c *Ctx) {
 	c.Rule("C02-R9", "a parser consumes exactly the bytes it matched: fixed read counts agree with the scan index at the match, countdown loops start at the scan index, prefix loops run to len(P) under HasPrefix(input, P), decoder loops run to nSrc, ReadBytes(d) only where the current byte is d")
 	c.Rule("C02-R10", "an input chunk handed to the parser goroutine over a channel has a backing array allocated for that chunk alone (every cycle through the send passes through the allocation)")
 	c.Rule("C02-R13", "the escape timeout only expires when 50 ms really passed without input: the timer is re-armed after a Stop whose 'already fired' answer drains the tick")
-	c.Expect("C02-R13", 2)
+	c.Expect("C02-R13", 4)
 	c.Rule("C02-R12", "no key sequence of any terminal is a proper prefix of another (the matcher ranges over a map and takes the first hit; with a prefix pair the result depends on where the read ended)")
 	c.Expect("C02-R12", 49)
 	c.Rule("C02-R11", "a parser that looks at several candidates only ever raises its 'partial' answer (constants, or a test made where the flag is still false): the answer cannot depend on the order of the candidates")
